@@ -203,12 +203,14 @@ def register_specs(draw, n=(1, 6), dim=None, layout=None, mappable=False,
         pts.append([gi * spacing + (jitter if j == 0 else 0.0) for j, gi in enumerate(g)])
     if ids is None:
         id_kind = draw(st.sampled_from(["q", "q", "pool"]))
+        id_kind_pool = id_kind == "pool"
         if id_kind == "q":
             idl = [f"q{i}" for i in range(k)]
         else:
             idl = list(draw(st.permutations(ID_POOL)))[:k]
     else:
         idl = ids[:k]
+        id_kind_pool = False
     use_layout = layout if layout is not None else (draw(st.integers(0, 3)) == 0)
     s: dict = dict(dim=dim, ids=idl, coords=pts)
     if use_layout or mappable:
@@ -235,7 +237,12 @@ def register_specs(draw, n=(1, 6), dim=None, layout=None, mappable=False,
         if mappable:
             s["mappable"] = k
             s["prefix"] = "q"
-            s["ids"] = [f"q{i}" for i in range(k)]
+            if id_kind_pool and draw(st.booleans()):
+                # ids declared in a non-sorted order (MappableRegister(layout, *ids))
+                s["mids"] = [str(i) for i in idl]
+                s["ids"] = list(s["mids"])
+            else:
+                s["ids"] = [f"q{i}" for i in range(k)]
     return s
 
 
@@ -358,7 +365,9 @@ def _waveform_specs(draw, d, lo, hi, nonneg=False, depth=0, kinds=None,
         out = dict(k="interp", d=d, values=vals)
         if draw(st.booleans()) and d >= 40:
             times = sorted({0.0, 1.0} | {round(draw(st.floats(0.05, 0.95)), 3) for _ in range(n - 2)})
-            if len(times) == n:
+            # interpolation points must fall on distinct samples: the constructor refuses
+            # two times that round to the same ns
+            if len(times) == n and len({round(t * (d - 1)) for t in times}) == n:
                 out["times"] = times
         return out
     if k == "custom":
@@ -494,7 +503,8 @@ def _qsel(draw, S: GState, lo=1, hi=None):
 
 def draw_op(draw, S: GState, P: dict):
     """Draws one op record and updates the light model optimistically."""
-    fault = draw(st.integers(0, 99)) < P.get("fault_pct", 0)
+    # (high draws are faults: the minimal, all-zero choice sequence stays fault-free)
+    fault = draw(st.integers(0, 99)) >= 100 - P.get("fault_pct", 0)
     nonlocal_decl = [i for i, c in enumerate(S.declared) if not c["dmm"]]
     dmm_decl = [i for i, c in enumerate(S.declared) if c["dmm"]]
     kinds = []
@@ -530,6 +540,9 @@ def draw_op(draw, S: GState, P: dict):
         kinds = ["fault"]
     if not kinds:
         kinds = ["declare"]
+    # the minimal choice (first element) is what Hypothesis' simplest examples take:
+    # make it a plain add rather than a re-declaration
+    kinds.sort(key=lambda k: k != "add")
     kind = draw(st.sampled_from(kinds))
     style = draw(st.sampled_from(["pos", "pos", "kw"]))
 
@@ -540,12 +553,12 @@ def draw_op(draw, S: GState, P: dict):
         cid = draw(st.integers(0, len(chans) - 1))
         if not S.reusable():
             free = [i for i in range(len(chans)) if i not in S.used_cids]
-            if free and draw(st.integers(0, 9)) > 0:
+            if free and draw(st.integers(0, 9)) < 9:
                 cid = draw(st.sampled_from(free))
         # avoid XY/ising mixing most of the time
         cs = chans[cid]
         name = f"ch{S.names}"
-        if draw(st.integers(0, 19)) == 0 and S.declared:
+        if draw(st.integers(0, 19)) == 19 and S.declared:
             name = S.declared[0]["name"]  # name collision (must be refused)
         S.names += 1
         op = dict(op="declare", name=name, cid=cid, style=style)
